@@ -85,6 +85,27 @@ Proof.
   rewrite Z.land_lor_distr_l. rewrite H. reflexivity.
 Qed.
 
+(** Hclose refreshes the version element only when the file allows writing *)
+Lemma hclose_no_update_without_write_access : forall refcount modified facc,
+  Z.land facc DFACC_WRITE = 0 -> hclose_updates_version refcount modified facc = 0.
+Proof.
+  intros refcount modified facc H. unfold hclose_updates_version, DFACC_WRITE in *. rewrite H. simpl.
+  rewrite andb_false_r. reflexivity.
+Qed.
+Lemma hclose_update_spec : forall refcount modified facc,
+  hclose_updates_version refcount modified facc = 1 <-> (0 < refcount /\ modified = 1 /\ Z.land facc DFACC_WRITE <> 0).
+Proof.
+  intros. unfold hclose_updates_version, DFACC_WRITE.
+  destruct (Z.ltb_spec 0 refcount); destruct (Z.eqb_spec modified 1); destruct (Z.eqb_spec (Z.land facc 2) 0); simpl;
+    split; intros; try discriminate; try lia; auto; try (destruct H1 as (? & ? & ?); try contradiction; try lia);
+    try (destruct H2 as (? & ? & ?); try contradiction; try lia).
+Qed.
+Lemma hclose_fails_spec : forall r, hclose_fails_when_update_fails r = 1 <-> r = FAIL.
+Proof.
+  intro r. unfold hclose_fails_when_update_fails, FAIL. simpl.
+  destruct (Z.eqb_spec r (-1)); split; intro; auto; try discriminate; contradiction.
+Qed.
+
 (** * The read-only invariant *)
 
 Definition ro_inv (f : frec) : Prop :=
@@ -364,10 +385,8 @@ Proof.
     rewrite D in H. inversion H; subst. t3.
   - (* OClose *)
     unfold hclose in H. destruct (f_open f); simpl in H; [| inversion H; subst; t3].
-    assert (U : (if nz (hclose_updates_version 1 (f_vmod f)) then hiupdate_version f else (f, [])) = (f, [])).
-    { destruct (nz (hclose_updates_version 1 (f_vmod f))); [|reflexivity].
-      unfold hiupdate_version. rewrite (hputelement_ro f Hinv). reflexivity. }
-    rewrite U in H. destruct (f_recs f); [rewrite (hisync_ro f Hinv) in H|]; inversion H; subst; t3.
+    rewrite (hclose_no_update_without_write_access 1 (f_vmod f) (f_access f) Hacc) in H. simpl in H.
+    destruct (f_recs f); [rewrite (hisync_ro f Hinv) in H|]; inversion H; subst; t3.
 Qed.
 
 (** * Histories *)
@@ -436,7 +455,8 @@ Lemma hclose_clean : forall f, f_open f = true -> f_dirty f = 0 -> f_vmod f = 0 
   hclose f = (upd_open f false, 0, []).
 Proof.
   intros f Ho Hd Hv Hr. unfold hclose. rewrite Ho. simpl.
-  assert (E : hclose_updates_version 1 (f_vmod f) = 0). { rewrite Hv. reflexivity. }
+  assert (E : hclose_updates_version 1 (f_vmod f) (f_access f) = 0).
+  { rewrite Hv. unfold hclose_updates_version. simpl. reflexivity. }
   rewrite E. simpl. rewrite Hr.
   unfold hisync. rewrite Hd. unfold hisync_flushes. destruct (Z.eqb (f_cache f) 0); reflexivity.
 Qed.
